@@ -212,11 +212,31 @@ def one_run(case, parent):
     import pyxel
 
     mode, det, pipe, out = build_mode(case, parent)
+    overwrite_why = None
+    planted: list = []
     try:
         with patched_clock():
-            res = pyxel.run_mode(mode=mode, detector=det, pipeline=pipe)
+            lazy = res = pyxel.run_mode(mode=mode, detector=det, pipeline=pipe)
             if case["mode"] == "parallel":
-                res = res.compute()
+                # the dask path writes its files when the lazy result is computed: files may appear in the run's
+                # directory before that, and the result may be computed more than once
+                run_dir0 = str(out.current_output_folder)
+                for name in case.get("plant", []):
+                    with open(os.path.join(run_dir0, name), "wb") as f:
+                        f.write(b"planted before compute: " + name.encode())
+                    planted.append(name)
+                for n in range(case.get("computes", 1)):
+                    before = stat_snapshot(run_dir0)
+                    res = lazy.compute()
+                    after = stat_snapshot(run_dir0)
+                    for name, st in before.items():
+                        if name not in after:
+                            overwrite_why = overwrite_why or f"compute {n + 1}: existing file '{name}' disappeared"
+                        elif after[name][0] != st[0]:
+                            overwrite_why = overwrite_why or (f"compute {n + 1} of the lazy result overwrote the existing file '{name}'"
+                                                              + (" (planted before the first compute)" if name in planted else " (written by the previous compute)"))
+                        elif after[name][1:] != st[1:]:
+                            overwrite_why = overwrite_why or f"compute {n + 1} of the lazy result rewrote the existing file '{name}' (same bytes, new mtime / inode)"
     except Exception as e:  # noqa: BLE001
         d = os.path.basename(str(out._current_output_folder)) if out._current_output_folder else None
         kind = "NotImplementedError" if isinstance(e, NotImplementedError) else common.err_kind(e)
@@ -244,7 +264,20 @@ def one_run(case, parent):
                         r = a_order.index(float(av)) * nb + b_order.index(float(bv))
                         for name in np.atleast_1d(v).ravel().tolist():
                             reported.append([r, bucket, fmt, str(name), av, bv])
-    return {"dir": os.path.basename(run_dir), "run_dir": run_dir, "reported": reported}
+    return {"dir": os.path.basename(run_dir), "run_dir": run_dir, "reported": reported, "planted": planted,
+            "overwrite": overwrite_why}
+
+
+def stat_snapshot(folder):
+    """file name -> (sha1, mtime_ns, inode, size) of every file in the folder"""
+    snap = {}
+    for name in sorted(os.listdir(folder)):
+        p = os.path.join(folder, name)
+        if os.path.isfile(p):
+            st = os.stat(p)
+            with open(p, "rb") as fh:
+                snap[name] = (hashlib.sha1(fh.read()).hexdigest(), st.st_mtime_ns, st.st_ino, st.st_size)
+    return snap
 
 
 def read_back(path, fmt):
@@ -273,6 +306,8 @@ def statement_run(case, impl):
         if impl["error"] == "NotImplementedError":
             return None  # the mode refuses this format loudly: outside the statement (counted in the evidence)
         return f"run failed with {impl['error']}: {impl['msg']}"
+    if impl.get("overwrite"):
+        return impl["overwrite"]
     nruns = 1 if case["mode"] == "exposure" else len(case["a"]) * len(case["b"])
     want = {(r, b, f) for r in range(nruns) for b, fmts in case["save"] for f in fmts}
     got: dict = {}
@@ -300,6 +335,8 @@ def statement_run(case, impl):
             return f"reported file '{name}' is not in the run's directory"
         if not os.path.isfile(path):
             return f"reported file '{name}' does not exist on disk"
+        if os.path.basename(name) in impl.get("planted", []):
+            continue  # a foreign file that was in the way is left alone (never overwritten): not this run's data
         av, bv = attributed[(r, b, f)]
         exp = expected_bucket(b, av, bv)
         try:
@@ -425,8 +462,17 @@ def gen_runs(rng, n, mode):
             a = rng.sample(range(0, 5), rng.choice([1, 2, 2, 3]))
             b = rng.sample(range(0, 9), rng.choice([1, 2, 3]))
         prefix = rng.choice(["", "", "", "foo_"])
-        case = {"stream": f"run-{mode}", "id": i, "mode": mode, "save": gen_save(rng, mode), "a": a, "b": b,
-                "readouts": rng.choice([1, 1, 2]), "prefix": prefix, "starts": rng.choice([1, 1, 2, 3]) if mode != "parallel" else rng.choice([1, 2]),
+        save = gen_save(rng, mode)
+        extra = {}
+        if mode == "parallel":
+            extra["computes"] = rng.choice([1, 2, 2])
+            if rng.random() < 0.5:
+                # colliding names planted inside the fresh directory between run_mode and the first compute
+                cand = [f"detector_{bk}_{r}.{f}" for bk, fmts in save for f in fmts for r in range(len(a) * len(b))]
+                extra["plant"] = sorted(set(rng.sample(cand, min(len(cand), rng.choice([1, 2])))))
+        case = {"stream": f"run-{mode}", "id": i, "mode": mode, "save": save, **extra, "a": a, "b": b,
+                "readouts": rng.choice([1, 1, 2]), "prefix": prefix,
+                "starts": rng.choice([1, 1, 2, 3]) if mode != "parallel" else (1 if extra.get("plant") else rng.choice([1, 2])),
                 "pre": gen_pre(rng, [prefix])}
         cases.append(case)
     return cases
@@ -438,6 +484,11 @@ def directed_runs():
     for mode in ("exposure", "sequential", "parallel"):
         out.append({"stream": f"run-{mode}", "id": f"jpgjpeg-{mode}", "mode": mode, "save": [["image", ["jpg", "jpeg", "npy"]]],
                     "a": [1] if mode == "exposure" else [1, 2], "b": [3], "readouts": 1, "prefix": "", "starts": 1, "pre": []})
+    out.append({"stream": "run-parallel", "id": "double-compute", "mode": "parallel", "save": [["image", ["fits", "npy"]], ["pixel", ["npy"]]],
+                "a": [1, 2], "b": [3], "readouts": 1, "prefix": "", "starts": 1, "pre": [], "computes": 2})
+    out.append({"stream": "run-parallel", "id": "planted-collision", "mode": "parallel", "save": [["image", ["fits", "npy"]], ["pixel", ["npy"]]],
+                "a": [1, 2], "b": [3], "readouts": 1, "prefix": "", "starts": 1, "pre": [], "computes": 2,
+                "plant": ["detector_image_0.fits", "detector_pixel_1.npy"]})
     repeated = {"nonadjacent": [["image", ["fits"]], ["pixel", ["npy"]], ["image", ["npy"]]],
                 "adjacent": [["image", ["fits"]], ["image", ["npy"]], ["pixel", ["npy"]]],
                 "three-entries": [["photon", ["npy"]], ["image", ["npy"]], ["photon", ["fits"]], ["signal", ["fits", "npy"]], ["image", ["fits", "jpg"]]]}
@@ -521,7 +572,7 @@ def violation_key(case, why):
         return "C19:create_output_directory:" + ("overwrite" if "overwritten" in why else "fresh-distinct")
     if "FileExistsError" in why and any("jpg" in f and "jpeg" in f for _, f in case["save"]) and case["mode"] == "sequential":
         return "C19:sequential:jpg-jpeg-same-file"
-    if "overwritten" in why or "disappeared" in why:
+    if "overwritten" in why or "disappeared" in why or "overwrote" in why or "rewrote" in why:
         return f"C19:{case['mode']}:overwrite"
     buckets = [b for b, _ in case["save"]]
     if "no reported file" in why and len(set(buckets)) != len(buckets):
@@ -596,6 +647,8 @@ def body(ck: common.Check):
                 for _, fmts in case["save"]:
                     for f in fmts:
                         ck.count(f"format={f}")
+                if case["mode"] == "parallel":
+                    ck.count(f"run-parallel:computes={case.get('computes', 1)}:planted={len(case.get('plant', []))}")
                 for impl_run in impl["runs"]:
                     ck.count(f"{s}:outcome=" + (impl_run.get("error") or "ok"))
                     if s == "run-degenerate":
@@ -628,6 +681,8 @@ def body(ck: common.Check):
         "the unreported detector_<bucket>.<ext> copy written by run 0 of a sequential observation is not a reported file: it is "
         "modelled (opsSequential) and compared, but does not contradict any clause of the statement",
         "thread and process interleavings are observed, not controlled; the model proves all interleavings",
+        "a foreign file planted under a name the run is about to write must survive unchanged (never overwritten); the reported "
+        "name then designates that foreign file, which is not judged for attribution (the two clauses conflict there)",
         "a save list asking twice for the same (bucket, format) is a degenerate request: recorded (stream run-degenerate), not judged",
     ]
     ck.trusted_base.append("C19: Path.mkdir(exist_ok=False) is an atomic test-and-set on the parent folder (POSIX mkdir); "
